@@ -683,3 +683,31 @@ def gen_C08(rng, count, tier):
             lines = "\r\n%s: %s" % (pick(rng, ["Range", "range", "RANGE"]), hdr)
         req = ("GET /%s HTTP/1.1%s\r\n\r\n" % (name, lines)).encode()
         yield ("fs", "root:%s %s" % (hx(FSROOT.encode()), fs_events(req)))
+
+
+# ------------------------------------------------------------------------------------ C15
+
+SLOTNAMES = ["a", "ab", "abc", "", "api/x", "A", "a/", "x y", "é", "b"]
+
+
+def gen_C15(rng, count, tier):
+    for i in range(count):
+        regs = []
+        for _ in range(rng.randrange(0, 6)):
+            regs.append("reg:%s:%s:%d" % (hx16(pick(rng, SLOTNAMES)), pick(rng, ["old", "pmf", "functor", "old", "missing", "wrongsig"]), rng.randrange(2)))
+        name = pick(rng, SLOTNAMES) if rng.random() < 0.85 else pick(rng, ["zzz", "a/b", "AB"])
+        target = "/" + name.replace(" ", "%20").replace("é", "%C3%A9")
+        n = pick(rng, [None, 0, 1, 3, 8, 16390 if rng.random() < 0.1 else 5])
+        body = bytes((j * 3 + i) % 251 for j in range(n or 0))
+        head = ("POST %s HTTP/1.1" % target).encode() + (b"\r\nContent-Length: %d" % n if n is not None else b"")
+        sent = body if rng.random() < 0.85 else body[:rng.randrange(0, len(body) + 1)]
+        stream = head + b"\r\n\r\n" + sent + pick(rng, [b"", b"", b"extra"])
+        h = len(head)
+        segs = cuts(rng, stream, marks=(h + 4, h + 4 + (n or 0), h + 2))
+        evs = ["new"] + ["feed:" + hx(s) for s in segs]
+        if rng.random() < 0.3:
+            evs.insert(rng.randrange(1, len(evs) + 1), "turn")
+        if rng.random() < 0.15:
+            evs.append("peerclose")
+        evs.append("turn")
+        yield ("slot", " ".join(regs + evs))
